@@ -102,7 +102,7 @@ def audit(prop: str, timeout: int = 900) -> dict:
 
 # ------------------------------------------------------------- generated model (translator) gate
 # properties whose theorem files contain `..._code_...` theorems about BBGen (the translation of the Python sources)
-GEN_PROPS = {"C01", "C02", "C03", "C04", "C05", "C07", "C08", "C10", "C11", "C12", "C15", "C17"}
+GEN_PROPS = {"C01", "C02", "C03", "C04", "C05", "C07", "C08", "C10", "C11", "C12", "C15", "C17", "C20"}
 
 
 def _lean_env() -> dict:
@@ -193,7 +193,9 @@ def gen_gate(prop: str, timeout: int = 1500) -> dict:
         # axioms of the property theorems against the regenerated model
         names = theorems_of(prop)
         probe = scratch / "audit.lean"
-        probe.write_text(f"import BBScratch.{prop}\nopen BB\n" + "".join(f"#print axioms {n}\n" for n in names))
+        nss = sorted(set(re.findall(r"^namespace\s+([A-Za-z0-9_.]+)", strip_comments((LEAN / "BBProps" / f"{prop}.lean").read_text()),
+                                    flags=re.M)) | {"BB"})
+        probe.write_text(f"import BBScratch.{prop}\n" + "".join(f"open {ns}\n" for ns in nss) + "".join(f"#print axioms {n}\n" for n in names))
         rr = subprocess.run(["lean", str(probe)], cwd=scratch, env=env, capture_output=True, text=True, timeout=timeout)
         out = rr.stdout + rr.stderr
         bad = []
